@@ -7,15 +7,22 @@ def parse_tps(tps):
         raise IllegalTPS("need three components")
     board, who, move = bits
 
-    if not who in "12":
+    if who not in ("1", "2"):
         raise IllegalTPS("Current player must be either 1 or 2")
+    if not (move.isascii() and move.isdigit()):
+        raise IllegalTPS("Bad move number: " + move)
     try:
-        ply = 2 * (int(move) - 1) + int(who) - 1
+        number = int(move)
     except ValueError:
         raise IllegalTPS("Bad move number: " + move)
+    if number < 1:
+        raise IllegalTPS("Bad move number: " + move)
+    ply = 2 * (number - 1) + int(who) - 1
 
     squares = []
     rows = board.split("/")
+    if not 3 <= len(rows) <= 8:
+        raise IllegalTPS("bad board size")
     for row in reversed(rows):
         rsq = parse_row(row)
         if len(rsq) != len(rows):
@@ -29,15 +36,21 @@ def parse_row(rtext):
     squares = []
     bits = rtext.split(",")
     for b in bits:
+        if b == "":
+            raise IllegalTPS("empty square")
         if b[0] == "x":
             n = 1
             if len(b) > 1:
+                if len(b) != 2 or b[1] not in "12345678":
+                    raise IllegalTPS("bad empty-square count: " + b)
                 n = int(b[1:])
             squares += [[]] * n
             continue
 
         stack = []
-        for c in b:
+        for i, c in enumerate(b):
+            if c in ("C", "S") and i != len(b) - 1:
+                raise IllegalTPS("stone type not at the top of the stack")
             if c == "1":
                 stack.append(tak.Piece.cached(tak.Color.WHITE, tak.Kind.FLAT))
             elif c == "2":
